@@ -13,7 +13,17 @@
 //!          setters is a dimension of its own (e.g. `c0,f20` vs `f20,c0`); an empty chain (`chain=-`)
 //!          is the default builder (fixed 5 s, cancelling).
 //! ops:    `arrive <c> [timeout=<ms>] inner=<lat>:<out>`, `poll`, `drop`, `adv`, `settle`, `dropall`
-//!         (timeouts are u64 milliseconds: 0 and values up to u64::MAX are meaningful)
+//!         (timeouts are u64 milliseconds: 0 and values up to u64::MAX are meaningful; everywhere a timeout is
+//!         written — `timeout=` in the header and on `arrive`, `d…`/`f…` in a chain — `max` stands for
+//!         `Duration::MAX`, the idiomatic "no limit": `now + Duration::MAX` is not a representable instant, the
+//!         call can never time out)
+//!         `manual dropsvc`: the adapter drops its `TimeLimiter` (the only handle it holds; the layer is a
+//!         temporary of `new`), i.e. every caller has let go of the service and keeps only its response future,
+//!         as `ServiceExt::oneshot` does; later arrivals are answered `noop`.
+//!
+//! The inner service is `Inner::tied()`: its in-flight calls notice when the last `Inner` instance is dropped
+//! (`inner_orphaned <c> <k>`) — the time limiter has to keep the instance a call was made on alive for as long as
+//! that call runs, in non-cancelling mode until it has completed in the background.
 //!
 //! No observed choices: since the repair "time limiter without cancellation prefers a finished
 //! inner call over the timeout" the non-cancel `select!` is biased (oneshot first), so the layer
@@ -40,63 +50,72 @@ enum Builder {
     Dyn(TimeLimiterConfigBuilder<DynamicTimeout<DynFn>>),
 }
 
-fn extractor(table: &Arc<Mutex<HashMap<usize, u64>>>, dflt: u64) -> DynFn {
+/// `<ms>` or `max` (= `Duration::MAX`)
+fn tmo(s: &str) -> Option<Duration> {
+    if s == "max" {
+        Some(Duration::MAX)
+    } else if !s.is_empty() && s.bytes().all(|x| x.is_ascii_digit()) {
+        s.parse::<u64>().ok().map(Duration::from_millis)
+    } else {
+        None
+    }
+}
+
+type PerReq = Arc<Mutex<HashMap<usize, Duration>>>;
+
+fn extractor(table: &PerReq, dflt: Duration) -> DynFn {
     let table = table.clone();
-    Box::new(move |req: &Req| {
-        let ms = table.lock().unwrap().get(&req.c).cloned().unwrap_or(dflt);
-        Duration::from_millis(ms)
-    })
+    Box::new(move |req: &Req| table.lock().unwrap().get(&req.c).cloned().unwrap_or(dflt))
 }
 
 /// apply the setters of `chain` in order through the public builder API
-fn build_chain(chain: &str, table: &Arc<Mutex<HashMap<usize, u64>>>) -> Svc {
+fn build_chain(chain: &str, table: &PerReq) -> Svc {
     let mut b = Builder::Fixed(TimeLimiterLayer::builder());
     for item in chain.split(',') {
         let (head, arg) = if item.is_char_boundary(item.len().min(1)) { item.split_at(item.len().min(1)) } else { ("", "") };
         let num = if arg.bytes().all(|x| x.is_ascii_digit()) { arg.parse::<u64>().ok() } else { None };
-        b = match (head, num, b) {
-            ("d", Some(ms), Builder::Fixed(x)) => Builder::Fixed(x.timeout_duration(Duration::from_millis(ms))),
-            ("d", Some(ms), Builder::Dyn(x)) => Builder::Fixed(x.timeout_duration(Duration::from_millis(ms))),
-            ("f", Some(ms), Builder::Fixed(x)) => Builder::Dyn(x.timeout_fn(extractor(table, ms))),
-            ("f", Some(ms), Builder::Dyn(x)) => Builder::Dyn(x.timeout_fn(extractor(table, ms))),
-            ("c", Some(v), Builder::Fixed(x)) if v <= 1 => Builder::Fixed(x.cancel_running_future(v == 1)),
-            ("c", Some(v), Builder::Dyn(x)) if v <= 1 => Builder::Dyn(x.cancel_running_future(v == 1)),
-            (_, _, b) => b,
+        let dur = tmo(arg);
+        b = match (head, dur, num, b) {
+            ("d", Some(d), _, Builder::Fixed(x)) => Builder::Fixed(x.timeout_duration(d)),
+            ("d", Some(d), _, Builder::Dyn(x)) => Builder::Fixed(x.timeout_duration(d)),
+            ("f", Some(d), _, Builder::Fixed(x)) => Builder::Dyn(x.timeout_fn(extractor(table, d))),
+            ("f", Some(d), _, Builder::Dyn(x)) => Builder::Dyn(x.timeout_fn(extractor(table, d))),
+            ("c", _, Some(v), Builder::Fixed(x)) if v <= 1 => Builder::Fixed(x.cancel_running_future(v == 1)),
+            ("c", _, Some(v), Builder::Dyn(x)) if v <= 1 => Builder::Dyn(x.cancel_running_future(v == 1)),
+            (_, _, _, b) => b,
         };
     }
     match b {
-        Builder::Fixed(x) => Svc::Fixed(x.build().layer(Inner::new())),
-        Builder::Dyn(x) => Svc::Dyn(x.build().layer(Inner::new())),
+        Builder::Fixed(x) => Svc::Fixed(x.build().layer(Inner::tied())),
+        Builder::Dyn(x) => Svc::Dyn(x.build().layer(Inner::tied())),
     }
 }
 
 pub struct Adapter {
-    svc: Svc,
-    /// per-request timeout carried "in the request": caller id -> ms (the request type of the
+    /// `None` once `manual dropsvc` has dropped it
+    svc: Option<Svc>,
+    /// per-request timeout carried "in the request": caller id -> timeout (the request type of the
     /// harness has no such field, so the extractor closure looks it up by the request's caller id)
-    per_req: Arc<Mutex<HashMap<usize, u64>>>,
+    per_req: PerReq,
 }
 
 impl Adapter {
     pub fn new(kv: &Kv) -> Adapter {
-        let timeout = kv.u64("timeout", 5000);
+        let timeout = kv.get("timeout").and_then(tmo).unwrap_or(Duration::from_millis(5000));
         let cancel = kv.u64("cancel", 1) != 0;
         let dynamic = kv.u64("dyn", 0) != 0;
-        let per_req: Arc<Mutex<HashMap<usize, u64>>> = Arc::new(Mutex::new(HashMap::new()));
+        let per_req: PerReq = Arc::new(Mutex::new(HashMap::new()));
         let svc = if let Some(chain) = kv.get("chain") {
             build_chain(chain, &per_req)
         } else if dynamic {
             let f = extractor(&per_req, timeout);
             let layer = TimeLimiterLayer::builder().timeout_fn(f).cancel_running_future(cancel).build();
-            Svc::Dyn(layer.layer(Inner::new()))
+            Svc::Dyn(layer.layer(Inner::tied()))
         } else {
-            let layer = TimeLimiterLayer::builder()
-                .timeout_duration(Duration::from_millis(timeout))
-                .cancel_running_future(cancel)
-                .build();
-            Svc::Fixed(layer.layer(Inner::new()))
+            let layer = TimeLimiterLayer::builder().timeout_duration(timeout).cancel_running_future(cancel).build();
+            Svc::Fixed(layer.layer(Inner::tied()))
         };
-        Adapter { svc, per_req }
+        Adapter { svc: Some(svc), per_req }
     }
 }
 
@@ -127,13 +146,23 @@ where
 
 impl Mw for Adapter {
     fn arrive(&mut self, c: usize, kv: &Kv) -> Option<CallFut> {
-        if let Some(ms) = kv.opt_u64("timeout") {
-            self.per_req.lock().unwrap().insert(c, ms);
+        let Some(svc) = self.svc.as_ref() else {
+            log_raw("noop".into());
+            return None;
+        };
+        if let Some(d) = kv.get("timeout").and_then(tmo) {
+            self.per_req.lock().unwrap().insert(c, d);
         }
         let req = Req::new(c, kv);
-        match &self.svc {
+        match svc {
             Svc::Fixed(s) => start(s, c, req),
             Svc::Dyn(s) => start(s, c, req),
+        }
+    }
+    fn manual(&mut self, what: &str, _kv: &Kv) {
+        if what == "dropsvc" && self.svc.is_some() {
+            log_raw(format!("#dropsvc {}", now_ms()));
+            self.svc = None;
         }
     }
     /// non-cancel mode spawns the inner call: let the task run (and its completion propagate)
